@@ -10,6 +10,7 @@ never a solver.  Anything outside the fragment raises `Unsupported` (-> exit 2).
 from __future__ import annotations
 
 import ast
+import re
 from fractions import Fraction
 
 from .rat import Rat, Poly, V, K, Idx, RatError
@@ -1529,6 +1530,23 @@ class Interp:
             return self.call_bound(callee, args, kwargs, e)
         if isinstance(callee, FuncRef):
             return self.call_function(callee.fn, args, kwargs, None, e, closure_env=callee.env)
+        if isinstance(callee, Opaque) and callee.name != dotted and callee.name and not getattr(self, "_redispatching", False) \
+                and re.fullmatch(r"[A-Za-z_][\w.]*", callee.name or ""):
+            # a function value kept in a local (`minimum = np.minimum if ... else min`): called as if spelled out
+            env2 = dict(env)
+            for i_, a_ in enumerate(args):
+                env2[f"__arg{i_}"] = a_
+            for k_, v_ in kwargs.items():
+                env2[f"__kw_{k_}"] = v_
+            call2 = ast.Call(func=ast.parse(callee.name, mode="eval").body, args=[ast.Name(id=f"__arg{i_}", ctx=ast.Load()) for i_ in range(len(args))],
+                             keywords=[ast.keyword(arg=k_, value=ast.Name(id=f"__kw_{k_}", ctx=ast.Load())) for k_ in kwargs])
+            ast.copy_location(call2, e)
+            ast.fix_missing_locations(call2)
+            self._redispatching = True
+            try:
+                return self.e_Call(call2, env2)
+            finally:
+                self._redispatching = False
         if isinstance(callee, Opaque):
             # a module-level function (or Class.function without self) of the repository: followed, not opaque
             res = Interp.resolver(callee.name) if Interp.resolver is not None else None
